@@ -386,6 +386,8 @@ class CasJsonSerializer:
             views[view.sofa.sofaID] = self._serialize_view(view)
 
             if view.sofa.sofaArray:
+                if view.sofa.sofaArray.xmiID is None:
+                    view.sofa.sofaArray.xmiID = cas._get_next_xmi_id()
                 json_sofa_array_fs = self._serialize_feature_structure(view.sofa.sofaArray)
                 feature_structures.append(json_sofa_array_fs)
             json_sofa_fs = self._serialize_feature_structure(view.sofa)
